@@ -45,7 +45,12 @@ MANIFEST_NOTE = ("Partial: malloc/aligned_alloc/operator new/mmap/mprotect are t
                  "modelled but cannot be executed in-process. Compile-time configurations: DEBUG_ALLOCATOR_KEEP=0/1 and NDEBUG on/off "
                  "are built and run (each in its own translation unit with the library's names renamed by macros); DEBUG_NEW_DELETE "
                  "(global operator new/delete on the debug manager, = allocate<char>(size)/deallocate<char>(p[, size])) and the "
-                 "__APPLE__/_MSC_VER branches are not.")
+                 "__APPLE__/_MSC_VER branches are not. Translator tolerance (round five): renamed parameters/locals, hoisted or inlined "
+                 "side-effect-free locals, a private helper that only selects between return expressions, for/while, flipped or negated "
+                 "comparisons in the request bound, null-test spellings and the inverted null guard are normalised away before the statement "
+                 "shapes are matched; other restructurings of the translated functions (std algorithms with lambdas instead of the hand "
+                 "loops, count-down threading in Pool::grow, a helper with side effects or out-parameters, a local of a narrower type) still "
+                 "end in `broken: translator` without a failing input although the property may hold.")
 TECHNIQUE = "Lean 4 proof over allocator state machines + translator for geometry/validation/page formulas + trace correspondence with interval-map oracle under ASan"
 TRANSLATORS = [tr_c15.translate]
 HARNESS = dict(
@@ -69,6 +74,7 @@ RULE = ("case = one allocator instance (kind x element type from 28 (sizeof,alig
 ASSUMPTIONS = [
     "the state machines in lean/DuneVerif/Model/C15.lean (intrusive pool IPool = transcription of Pool::grow/allocate/free; list model Pool proved equivalent; allocation list of the debug manager) are hand-written; their fidelity to the headers rests on this differential run, in which the driver executes the intrusive pool and cross-checks it against the list model",
     "slot geometry, request validation, DebugAllocator page arithmetic, the loop bounds of Pool::grow (pointer loop or index loop), the range test of Pool::free, the contents of the #if DEBUG_ALLOCATOR_KEEP branch of deallocate, the not_free bookkeeping and the destructor's walk are regenerated from the headers by tools/translators/tr_c15.py; statement shapes it does not understand make it fail (broken: translator)",
+    "before the statement shapes are matched the translator brings each function body to one spelling by source-to-source steps whose side conditions it checks on the text (otherwise the text is left alone and the match fails loudly): parameters and locals are renamed by their role (found through the statement that defines the role, e.g. the local initialised with chunks_->chunk_), a local that is initialised once from a side-effect-free expression of a non-narrowing type (64-bit unsigned, auto, listed pointer types; int only over Pool's int constants) and whose operands cannot change before its last use (no assignment, ++/--, address-of, pass to an unknown function, no call of an unknown function in between) is replaced by its initialiser, a member function of the same class whose body is a decision tree of return statements is expanded at call sites of the forms `T v = W(f(a));`, `v = W(f(a));`, `return W(f(a));` (side-effect-free arguments, parameters by value/const reference and never written), `x = y;` makes the never-again-written local y an alias of x, a classic for loop without continue is read as init + while, `p == nullptr/NULL/0` is `!p`, `if (p) return p; throw E;` is `if (!p) throw E; return p;`, a request bound may be written `n > E`, `E < n`, `!(n <= E)`, `!(E >= n)`, and PoolAllocator::deallocate may be any of six loop spellings that free p, p+1, …, p+n-1 in order; the formulas inside the shapes are compared by value on the grid as before",
     "a formula rewritten in the source into a textually different one that agrees with the form the proofs were written against on the translator's whole grid (sizeof 1..130, alignof 1..128, ~30 pool sizes; counts around max_size; capacities around page multiples) is emitted in that known form, with the source text kept as a comment in Gen/C15.lean; any value difference on the grid emits the source's own expression",
     "LP64 target: sizeof(void*) = alignof(void*) = 8, size_t has 64 bits, alignof(std::max_align_t) = 16, page size 4096 in the corpus files",
     "operator new / malloc / aligned_alloc / mmap return disjoint, suitably aligned, usable memory (trusted, not modelled)",
